@@ -14,6 +14,12 @@ func EndBlocker(ctx sdk.Context, k keeper.Keeper) {
 	}
 
 	for _, dataId := range expiredData.Data {
+		// entries are not removed when a model is terminated, rolled back or extended:
+		// only delete a model whose recorded lifetime really ends at this height
+		meta, found := k.GetMetadata(ctx, dataId)
+		if !found || meta.CreatedAt+meta.Duration != uint64(ctx.BlockHeight()) {
+			continue
+		}
 		k.DeleteMeta(ctx, dataId)
 	}
 
